@@ -72,6 +72,12 @@ func NewStructElement(key px.Value, value px.Type) *StructElement {
 			name = strType.value
 			keyType = key
 		}
+	case *NotUndefType:
+		// Parameters() writes a required key whose value accepts undef as NotUndef['name']
+		if strType, ok := key.typ.(*vcStringType); ok {
+			name = strType.value
+			keyType = strType
+		}
 	}
 
 	if keyType == nil || name == `` {
